@@ -24,6 +24,21 @@ package main
 //   - accumulators `res *[]T` (whitelist field Acc): threaded through and returned
 //   - struct literals naming every field; cmp.Equal on leaf values; slices.Reverse of a local slice;
 //     uint(i), int(math.Max/Min(float64(a), float64(b)))
+// Added by the second extension (xlate7d; each still fails loudly outside its stated shape):
+//   - DYNAMIC DISPATCH of dom.Node interface methods (translate_dispatch.go): a whitelist entry with `Dispatch` is
+//     the method table; the generator enumerates every implementation of the interface in the package
+//   - receivers `*leaf`, fields `l.value`, `&leaf{value: v}`; `c.ensureChildren()`; `c2.children[k] = v` on a local builder;
+//     `len(m)` of a Go map; `$0` (the receiver) in fuel expressions
+//   - `map[string]dom.Leaf` (kind leafmap): `make`, `m[k] = v`, range in key order; accumulators that point to such a
+//     map (`ret *map[string]Leaf`, with the alias `m := *ret`); `&local` as the accumulator argument of a callee
+//   - `map[string]dom.ContainerBuilder` (kind contmap): index only; `m[k]` on a map[string]Node (nil when absent)
+//   - calls of function-valued parameters (`fn(v)`: visitors, predicates) — the parameter has a type `… → Go.Res …`;
+//     calls of translated CONCRETE methods on a receiver of an implementation type (`c.Flatten()`)
+//   - `strings.Split(s, sep)` for a constant one-character separator; `re.FindStringIndex` for the package-level
+//     regexps listed in xlRegexpFind; comma-ok type assertions `l, ok := n.(dom.List)` in an if-else
+//   - whitelist flag `Plain` (the codec side): `interface{}` ↦ `Val`, conversions of []interface{} / map[string]interface{}
+//     to interface{} are the constructors, `make([]interface{}, n)`, `res[i] = v` on a local slice that the function
+//     made itself and uses only by index assignment, len and return (no alias)
 // NOT translated (rejected): in-place mutation of a builder the function did not create itself (the
 // whole of diff/apply.go and the patch handlers work that way: `current = x.(ContainerBuilder)` walks
 // INTO the caller's tree and edits it there), type switches, closures, break/continue.
@@ -32,12 +47,21 @@ package main
 import (
 	"fmt"
 	"go/ast"
+	"go/constant"
 	"go/token"
 	"go/types"
 	"strings"
 )
 
-func init() { generators["FuncsDom"] = genFuncsDom }
+func init() {
+	generators["FuncsDom"] = genFuncsDom
+	xlRegexps["\\[\\d+]$"] = "GoDom.reIdxSuffix"
+}
+
+// regular expressions: pattern text -> DomPrelude function giving FindStringIndex (nil = no match)
+var xlRegexpFind = map[string]string{
+	"\\[\\d+]$": "GoDom.reIdxSuffixFind",
+}
 
 var xlDomWhitelist = []xlFunc{
 	// interface of functions emitted in Generated/Funcs.lean
@@ -48,8 +72,51 @@ var xlDomWhitelist = []xlFunc{
 	{Pkg: "dom", Name: "coalesce", Lean: "coalesce"},
 	{Pkg: "dom", Name: "firstValidListItem", Lean: "firstValidListItem"},
 	{Pkg: "dom", Name: "mergeListsAppend", Lean: "mergeListsAppend", Fuel: []string{"$1.Size()+1", "$2.Size()+1"}},
-	{Pkg: "dom", Recv: "merger", Name: "mergeContainers", Lean: "mergeContainers", Flatten: true, RecFuel: "GoDom.sizeC $2 + 1"},
+	{Pkg: "dom", Recv: "merger", Name: "mergeContainers", Lean: "mergeContainers", Flatten: true, Nullable: []string{"c2"}, RecFuel: "GoDom.sizeC ($2.getD []) + 1"},
 	{Pkg: "dom", Recv: "merger", Name: "mergeListsMeld", Lean: "mergeListsMeld", Flatten: true, Fuel: []string{"$1.Size()+$2.Size()+1", "$1.Size()+$2.Size()+1", "$1.Size()+$2.Size()+1"}},
+	// dom/merge.go: what Merged() runs  [C06]
+	{Pkg: "dom", Recv: "merger", Name: "mergeLists", Lean: "mergeLists", Flatten: true},
+	{Pkg: "dom", Recv: "merger", Name: "mergeOverlay", Lean: "mergeOverlay", Flatten: true},
+	// dom/leaf.go, dom/list.go, dom/container.go: Equals / Clone with the dynamic dispatch of the interface calls  [C05]
+	{Pkg: "dom", Recv: "leaf", Name: "Equals", Lean: "leafEquals", Nullable: []string{"node"}},
+	{Pkg: "dom", Recv: "listImpl", Name: "Equals", Lean: "listEquals", Nullable: []string{"node"}, Fuel: []string{"len($0.items)+1"}, RecFuel: "2 * GoDom.sizeL $0 + 2", RecGroup: "equals"},
+	{Pkg: "dom", Recv: "containerImpl", Name: "Equals", Lean: "containerEquals", Nullable: []string{"node"}, RecFuel: "2 * GoDom.sizeC $0 + 2", RecGroup: "equals"},
+	{Pkg: "dom", Name: "Equals", Lean: "Equals", Dispatch: "Node", RecFuel: "2 * GoDom.sizeN $1 + 1", RecGroup: "equals"},
+	{Pkg: "dom", Recv: "leaf", Name: "Clone", Lean: "leafClone"},
+	{Pkg: "dom", Recv: "listImpl", Name: "Clone", Lean: "listClone", RecFuel: "2 * GoDom.sizeL $0 + 2", RecGroup: "clone"},
+	{Pkg: "dom", Recv: "containerImpl", Name: "Clone", Lean: "containerClone", RecFuel: "2 * GoDom.sizeC $0 + 2", RecGroup: "clone"},
+	{Pkg: "dom", Name: "Clone", Lean: "Clone", Dispatch: "Node", RecFuel: "2 * GoDom.sizeN $1 + 1", RecGroup: "clone"},
+	// SameAs of the three kinds and its method table (not recursive: a plain definition)  [C05]
+	{Pkg: "dom", Recv: "leaf", Name: "SameAs", Lean: "leafSameAs", Nullable: []string{"node"}},
+	{Pkg: "dom", Recv: "listImpl", Name: "SameAs", Lean: "listSameAs", Nullable: []string{"node"}},
+	{Pkg: "dom", Recv: "containerImpl", Name: "SameAs", Lean: "containerSameAs", Nullable: []string{"node"}},
+	{Pkg: "dom", Name: "SameAs", Lean: "SameAs", Dispatch: "Node"},
+	// dom/container.go: Flatten and its walkers, Search  [C02]
+	{Pkg: "dom", Name: "flattenLeaf", Lean: "domFlattenLeaf", Acc: "ret"},
+	{Pkg: "dom", Name: "flattenList", Lean: "domFlattenList", Acc: "ret", RecFuel: "GoDom.sizeL $1 + 1", RecGroup: "domflatten"},
+	{Pkg: "dom", Name: "flattenContainer", Lean: "domFlattenContainer", Acc: "ret", RecFuel: "GoDom.sizeC $1 + 1", RecGroup: "domflatten"},
+	{Pkg: "dom", Recv: "containerImpl", Name: "Flatten", Lean: "containerFlatten"},
+	{Pkg: "dom", Recv: "containerImpl", Name: "Search", Lean: "containerSearch"},
+	{Pkg: "dom", Recv: "containerImpl", Name: "Lookup", Lean: "containerLookup", NullRes: true},
+	{Pkg: "dom", Recv: "containerImpl", Name: "Child", Lean: "containerChild", NullRes: true, RecFuel: "($1).length + 1"},
+	// dom/overlay.go: the walkers behind OverlayDocument.Walk (the visitor is a parameter)  [C06]
+	{Pkg: "dom", Name: "walkNode", Lean: "walkNode", RecFuel: "2 * GoDom.sizeN $4 + 2", RecGroup: "walk"},
+	{Pkg: "dom", Name: "walkList", Lean: "walkList", RecFuel: "2 * GoDom.sizeL $3 + 2", RecGroup: "walk"},
+	{Pkg: "dom", Name: "walkContainer", Lean: "walkContainer", RecFuel: "2 * GoDom.sizeC $3 + 2", RecGroup: "walk"},
+	{Pkg: "dom", Recv: "overlayDocument", Name: "Lookup", Lean: "overlayLookup", Flatten: true, NullRes: true},
+	{Pkg: "dom", Recv: "overlayDocument", Name: "LookupAny", Lean: "overlayLookupAny", Flatten: true, NullRes: true},
+	// dom/codec.go: the encoders behind AsMap / AsSlice / DefaultNodeEncoderFn  [C01]
+	{Pkg: "dom", Name: "encodeLeafFn", Lean: "encodeLeafFn", Plain: true},
+	{Pkg: "dom", Name: "encodeListFn", Lean: "encodeListFn", Plain: true, RecFuel: "GoDom.sizeL $1 + 1", RecGroup: "encode"},
+	{Pkg: "dom", Name: "encodeContainerFn", Lean: "encodeContainerFn", Plain: true, RecFuel: "GoDom.sizeC $1 + 1", RecGroup: "encode"},
+	{Pkg: "dom", Recv: "containerImpl", Name: "AsMap", Lean: "containerAsMap", Plain: true},
+	{Pkg: "dom", Recv: "listImpl", Name: "AsSlice", Lean: "listAsSlice", Plain: true},
+	{Pkg: "dom", Name: "DefaultNodeMappingFn", Lean: "DefaultNodeMappingFn", Plain: true},
+	{Pkg: "dom", Name: "DefaultNodeEncoderFn", Lean: "DefaultNodeEncoderFn", Plain: true},
+	// dom/types.go: SearchEqual(in)(val)  [C19: the placeholder resolver searches with it]
+	{Pkg: "dom", Name: "SearchEqual", Lean: "SearchEqual", Curried: true},
+	// analytics/dependency_resolver.go: the default placeholder matcher `hasPlaceholderFunc(ph)(val)`  [C19]
+	{Pkg: "analytics", Name: "hasPlaceholderFunc", Lean: "hasPlaceholderFunc", Curried: true},
 	// diff/diff.go  [C07]
 	{Pkg: "diff", Name: "appendMod", Lean: "appendMod", Acc: "res"},
 	{Pkg: "diff", Name: "flattenLeaf", Lean: "flattenLeaf", Acc: "res"},
@@ -59,6 +126,15 @@ var xlDomWhitelist = []xlFunc{
 	{Pkg: "diff", Name: "diffList", Lean: "diffList", Acc: "res"},
 	{Pkg: "diff", Name: "handleExisting", Lean: "handleExisting", Acc: "res", RecFuel: "2 * GoDom.sizeN $1 + 1", RecGroup: "diff"},
 	{Pkg: "diff", Name: "diff", Lean: "diff", Acc: "res", RecFuel: "2 * GoDom.sizeC $1 + 2", RecGroup: "diff"},
+	// dom/list.go: the ListBuilder methods behind the DomPrelude primitives GoDom.append / GoDom.set (they mutate their
+	// receiver and return it: Acc "$recv").  LAST in the list, so that the code above keeps calling the primitives; the
+	// theorems `listBuilder*_generated_eq_model` (C03) prove the primitives equal to these translations.
+	{Pkg: "dom", Recv: "listBuilderImpl", Name: "Append", Lean: "listBuilderAppend", Acc: "$recv"},
+	{Pkg: "dom", Recv: "listBuilderImpl", Name: "Clear", Lean: "listBuilderClear", Acc: "$recv"},
+	{Pkg: "dom", Recv: "listBuilderImpl", Name: "MustSet", Lean: "listBuilderMustSet", Acc: "$recv"},
+	{Pkg: "dom", Recv: "listBuilderImpl", Name: "Set", Lean: "listBuilderSet", Acc: "$recv", Fuel: []string{"int($1)+2"}},
+	{Pkg: "dom", Name: "ListNode", Lean: "ListNode"},
+	{Pkg: "dom", Recv: "containerBuilderImpl", Name: "Remove", Lean: "containerBuilderRemove", Acc: "$recv"},
 }
 
 func genFuncsDom(repo string) (string, error) {
@@ -73,6 +149,9 @@ func genFuncsDom(repo string) (string, error) {
 // ---------------------------------------------------------------- types
 
 const domPath = xlModule + "dom"
+
+// xlPlainMode: the function being translated has the whitelist flag Plain (set by translateFunc / registerRecs)
+var xlPlainMode bool
 
 // domKind classifies a Go type: "node" | "cont" | "list" | "leaf" | "any" | ""
 func domKind(t types.Type) string {
@@ -101,14 +180,28 @@ func domKind(t types.Type) string {
 				return "cont"
 			case "listImpl", "listBuilderImpl":
 				return "list"
+			case "leaf":
+				return "leaf"
 			}
 		}
 	case *types.Map:
 		if isStringy(y.Key()) && domKind(y.Elem()) == "node" {
 			return "cont"
 		}
+		if isStringy(y.Key()) && domKind(y.Elem()) == "plain" {
+			return "plainmap" // map[string]interface{} on the codec side
+		}
+		if isStringy(y.Key()) && domKind(y.Elem()) == "cont" {
+			return "contmap" // map[string]dom.ContainerBuilder (the layers of an overlay document)
+		}
+		if isStringy(y.Key()) && domKind(y.Elem()) == "leaf" {
+			return "leafmap" // map[string]dom.Leaf (the result of Flatten)
+		}
 	case *types.Interface:
 		if y.NumMethods() == 0 {
+			if xlPlainMode {
+				return "plain"
+			}
 			return "any"
 		}
 	}
@@ -127,6 +220,14 @@ func domKindLean(k string) string {
 		return "GoDom.Leaf"
 	case "any":
 		return "GoDom.Any"
+	case "leafmap":
+		return "GoDom.LeafMap"
+	case "contmap":
+		return "GoDom.ContMap"
+	case "plain":
+		return "Val"
+	case "plainmap":
+		return "(List (String × Val))"
 	}
 	return ""
 }
@@ -180,6 +281,11 @@ func (x *xl) nullable(e ast.Expr) bool {
 			return true
 		}
 		return x.isOptVar(x.p.info.Uses[y])
+	case *ast.IndexExpr:
+		// m[k] on a map[string]Node: nil when the key is absent
+		if _, isMap := x.typeOf(y.X).Underlying().(*types.Map); isMap && (domKind(x.typeOf(y.X)) == "cont" || domKind(x.typeOf(y.X)) == "contmap") {
+			return true
+		}
 	case *ast.CallExpr:
 		if sel, ok := y.Fun.(*ast.SelectorExpr); ok {
 			if s, ok := x.p.info.Selections[sel]; ok && s.Kind() == types.MethodVal && domKind(x.typeOf(sel.X)) == "cont" {
@@ -207,6 +313,10 @@ func (x *xl) coerce(n ast.Node, s string, from types.Type, fromOpt bool, to type
 				return "", x.errf(n, "conversion of a possibly-nil %s to dom.Node", from)
 			}
 			s = map[string]string{"cont": "(Node.cont ", "list": "(Node.list ", "leaf": "(Node.leaf "}[fk] + s + ")"
+		} else if tk == "plain" && fk == "plainmap" {
+			s = "(Val.obj " + s + ")"
+		} else if sl, ok := from.Underlying().(*types.Slice); ok && tk == "plain" && domKind(sl.Elem()) == "plain" {
+			s = "(Val.arr " + s + ")"
 		} else if tk == "any" && fk == "" || fk == "any" && tk == "" {
 			return "", x.errf(n, "conversion between %s and %s", from, to)
 		} else if tk != "" || fk != "" {
@@ -227,6 +337,9 @@ func (x *xl) exprTo(e ast.Expr, to types.Type, toOpt bool) ([]string, string, er
 	if isNilIdent(x.p.info, e) {
 		if domKind(to) == "any" {
 			return nil, "GoDom.anyNil", nil
+		}
+		if domKind(to) == "plain" {
+			return nil, "Val.null", nil
 		}
 		if toOpt {
 			return nil, "none", nil
@@ -249,6 +362,9 @@ func (x *xl) exprTo(e ast.Expr, to types.Type, toOpt bool) ([]string, string, er
 }
 
 func (x *xl) varLeanType(v *types.Var) (string, error) {
+	if x.acc != nil && v == x.acc && x.recvAcc {
+		return x.w.leanType(v.Type())
+	}
 	if x.acc != nil && v == x.acc {
 		return x.w.leanType(v.Type().Underlying().(*types.Pointer).Elem())
 	}
@@ -294,6 +410,14 @@ func (x *xl) domMethod(c *ast.CallExpr, sel *ast.SelectorExpr) ([]string, string
 	if k == "" || k == "any" {
 		return nil, "", false, nil
 	}
+	if fn := x.calleeFunc(c); fn != nil {
+		// a translated CONCRETE method (`c.Flatten()` on a *containerImpl receiver): the generated definition
+		if _, isRec := x.w.recs[fn]; (isRec && x.inGroup[fn]) || x.lookupDone(fn) != nil {
+			if sig := fn.Type().(*types.Signature); sig.Recv() != nil && !types.IsInterface(sig.Recv().Type()) {
+				return nil, "", false, nil
+			}
+		}
+	}
 	m := sel.Sel.Name
 	type ent struct {
 		lean  string
@@ -315,6 +439,10 @@ func (x *xl) domMethod(c *ast.CallExpr, sel *ast.SelectorExpr) ([]string, string
 		if err != nil {
 			return nil, "", true, err
 		}
+		if k == "leaf" && m == "Value" && xlPlainMode {
+			// on the codec side a leaf's value is a plain value
+			return b, "(Val.sc (GoDom.value " + r + "))", true, nil
+		}
 		parts := []string{e.lean, r}
 		for _, a := range c.Args {
 			if !isStringy(x.typeOf(a)) {
@@ -328,6 +456,32 @@ func (x *xl) domMethod(c *ast.CallExpr, sel *ast.SelectorExpr) ([]string, string
 			parts = append(parts, sa)
 		}
 		return b, "(" + strings.Join(parts, " ") + ")", true, nil
+	}
+	// any other interface method with a generated method table (SameAs …)
+	if dn, ok := x.w.dispDone[m]; ok && m != "Equals" && m != "Clone" {
+		d := x.w.dispInfo[m]
+		sig := d.method.Type().(*types.Signature)
+		if len(c.Args) != sig.Params().Len() {
+			return nil, "", true, x.errf(c, "call of %s: argument count", m)
+		}
+		b, r, err := x.domRecv(sel.X)
+		if err != nil {
+			return nil, "", true, err
+		}
+		r, err = x.coerce(sel.X, r, x.typeOf(sel.X), false, x.nodeType(), false)
+		if err != nil {
+			return nil, "", true, err
+		}
+		args := []string{dn, r}
+		for i, a := range c.Args {
+			ba, sa, err := x.exprTo(a, sig.Params().At(i).Type(), d.nullAt[i])
+			if err != nil {
+				return nil, "", true, err
+			}
+			b, args = append(b, ba...), append(args, sa)
+		}
+		b, t := x.bindTmp(b, strings.Join(args, " "))
+		return b, t, true, nil
 	}
 	// Equals / Clone through the interface: the hand-written primitive, unless the method is being translated
 	if (m == "Equals" && len(c.Args) == 1 || m == "Clone" && len(c.Args) == 0) && k != "leaf" {
@@ -343,6 +497,20 @@ func (x *xl) domMethod(c *ast.CallExpr, sel *ast.SelectorExpr) ([]string, string
 			// dynamic dispatch on the node kind, inside the recursion group being translated
 			x.touched[rn] = true
 			args := []string{rn, r}
+			if m == "Equals" {
+				ba, sa, err := x.exprTo(c.Args[0], x.nodeType(), true)
+				if err != nil {
+					return nil, "", true, err
+				}
+				b = append(b, ba...)
+				args = append(args, sa)
+			}
+			b, t := x.bindTmp(b, strings.Join(args, " "))
+			return b, t, true, nil
+		}
+		if dn, ok := x.w.dispDone[m]; ok {
+			// the dispatcher generated earlier in this file
+			args := []string{dn, r}
 			if m == "Equals" {
 				ba, sa, err := x.exprTo(c.Args[0], x.nodeType(), true)
 				if err != nil {
@@ -379,12 +547,43 @@ func (x *xl) domField(y *ast.SelectorExpr) ([]string, string, bool, error) {
 		}
 		return b, "(GoDom.children " + r + ")", true, nil
 	}
+	isRecv := false
+	if id, ok := y.X.(*ast.Ident); ok && x.f.Flatten && x.p.info.Uses[id] == x.recv {
+		isRecv = true
+	}
+	if pt, ok := x.typeOf(y.X).Underlying().(*types.Pointer); ok && k == "" && !isRecv {
+		// p.f on a parameter / variable that is a pointer to a struct: dereference (nil panics), then the field
+		if _, isStruct := pt.Elem().Underlying().(*types.Struct); isStruct {
+			if sel, ok := x.p.info.Selections[y]; ok && sel.Kind() == types.FieldVal && len(sel.Index()) == 1 {
+				if _, err := x.w.leanType(pt.Elem()); err != nil {
+					return nil, "", true, x.errf(y, "%v", err)
+				}
+				b, s, err := x.expr(y.X)
+				if err != nil {
+					return nil, "", true, err
+				}
+				b, t := x.bindTmp(b, "Go.deref "+s)
+				return b, t + "." + leanField(y.Sel.Name), true, nil
+			}
+		}
+	}
+	if k == "leaf" && y.Sel.Name == "value" {
+		b, r, err := x.domRecv(y.X)
+		if err != nil {
+			return nil, "", true, err
+		}
+		return b, "(GoDom.value " + r + ")", true, nil
+	}
 	return nil, "", false, nil
 }
 
 func (x *xl) typeAssert(y *ast.TypeAssertExpr) ([]string, string, error) {
 	if y.Type == nil {
 		return nil, "", x.errf(y, "type switch")
+	}
+	if k := domKind(x.typeOf(y.X)); k != "node" && k != "" && k == domKind(x.typeOf(y)) {
+		// n.(dom.Container) on a value that already is a Container: succeeds unless nil
+		return x.domRecv(y.X)
 	}
 	if domKind(x.typeOf(y.X)) != "node" {
 		return nil, "", x.errf(y, "type assertion on %s", x.typeOf(y.X))
@@ -401,24 +600,71 @@ func (x *xl) typeAssert(y *ast.TypeAssertExpr) ([]string, string, error) {
 	return b, t, nil
 }
 
-// domNew: `&listBuilderImpl{}`, `&containerBuilderImpl{}`, `map[string]Node{}`, dom.ListNode(), dom.Builder().Container()
-func (x *xl) domNew(e ast.Expr) (string, bool) {
+// domNew: `&listBuilderImpl{}`, `&containerBuilderImpl{}`, `map[string]Node{}`, `&leaf{value: v}`
+func (x *xl) domNew(e ast.Expr) ([]string, string, bool, error) {
 	if u, ok := e.(*ast.UnaryExpr); ok && u.Op == token.AND {
 		if cl, ok := u.X.(*ast.CompositeLit); ok && len(cl.Elts) == 0 {
 			switch domKind(x.typeOf(e)) {
 			case "list":
-				return "GoDom.newList", true
+				return nil, "GoDom.newList", true, nil
 			case "cont":
-				return "GoDom.newContainer", true
+				return nil, "GoDom.newContainer", true, nil
 			}
+		}
+		if cl, ok := u.X.(*ast.CompositeLit); ok && len(cl.Elts) == 1 && domKind(x.typeOf(e)) == "leaf" {
+			// &leaf{value: v}
+			kv, ok := cl.Elts[0].(*ast.KeyValueExpr)
+			if !ok {
+				return nil, "", true, x.errf(e, "positional leaf literal")
+			}
+			if id, ok := kv.Key.(*ast.Ident); !ok || id.Name != "value" || domKind(x.typeOf(kv.Value)) != "any" {
+				return nil, "", true, x.errf(e, "leaf literal: field other than value")
+			}
+			b, v, err := x.expr(kv.Value)
+			if err != nil {
+				return nil, "", true, err
+			}
+			return b, "(GoDom.mkLeaf " + v + ")", true, nil
 		}
 	}
 	if cl, ok := e.(*ast.CompositeLit); ok && len(cl.Elts) == 0 {
 		if _, isMap := x.typeOf(e).Underlying().(*types.Map); isMap && domKind(x.typeOf(e)) == "cont" {
-			return "GoDom.newContainer", true
+			return nil, "GoDom.newContainer", true, nil
 		}
 	}
-	return "", false
+	if cl, ok := e.(*ast.CompositeLit); ok && len(cl.Elts) == 0 && domKind(x.typeOf(e)) == "plainmap" {
+		return nil, "GoDom.newPlainMap", true, nil
+	}
+	if c, ok := e.(*ast.CallExpr); ok && len(c.Args) == 2 {
+		// make([]interface{}, n): n nil values
+		if id, ok := c.Fun.(*ast.Ident); ok {
+			if bi, ok := x.p.info.Uses[id].(*types.Builtin); ok && bi.Name() == "make" {
+				if sl, ok := x.typeOf(e).Underlying().(*types.Slice); ok && domKind(sl.Elem()) == "plain" && isInty(x.typeOf(c.Args[1])) {
+					b, n, err := x.expr(c.Args[1])
+					if err != nil {
+						return nil, "", true, err
+					}
+					return b, "(GoDom.makePlainList " + n + ")", true, nil
+				}
+			}
+		}
+	}
+	if c, ok := e.(*ast.CallExpr); ok && len(c.Args) == 1 {
+		// make(map[string]Node) / make(map[string]Leaf)
+		if id, ok := c.Fun.(*ast.Ident); ok {
+			if bi, ok := x.p.info.Uses[id].(*types.Builtin); ok && bi.Name() == "make" {
+				if _, isMap := x.typeOf(e).Underlying().(*types.Map); isMap {
+					switch domKind(x.typeOf(e)) {
+					case "cont":
+						return nil, "GoDom.newContainer", true, nil
+					case "leafmap":
+						return nil, "GoDom.newLeafMap", true, nil
+					}
+				}
+			}
+		}
+	}
+	return nil, "", false, nil
 }
 
 // numeric conversions: uint(i), int(math.Max(float64(a), float64(b)))
@@ -484,16 +730,38 @@ func (x *xl) localBuilder(e ast.Expr, what string) (string, *types.Var, error) {
 	if x.optVars[v] {
 		return "", nil, x.errf(e, "%s on a possibly-nil variable", what)
 	}
+	x.mutated[v] = true
 	return x.nameOf(v), v, nil
 }
 
 // domSimple: statements that mutate a local builder / map / accumulator
 func (x *xl) domSimple(s ast.Stmt) ([]string, bool, error) {
+	if err := x.noteAliases(s); err != nil {
+		return nil, true, err
+	}
 	switch y := s.(type) {
 	case *ast.ExprStmt:
 		c, ok := y.X.(*ast.CallExpr)
 		if !ok {
 			return nil, false, nil
+		}
+		// delete(c.children, k) on the receiver being threaded / a local builder
+		if id, ok := c.Fun.(*ast.Ident); ok && len(c.Args) == 2 {
+			if bi, ok := x.p.info.Uses[id].(*types.Builtin); ok && bi.Name() == "delete" {
+				fs, ok := c.Args[0].(*ast.SelectorExpr)
+				if !ok || fs.Sel.Name != "children" || domKind(x.typeOf(fs.X)) != "cont" {
+					return nil, true, x.errf(c, "delete on something other than the children of a container builder")
+				}
+				n, _, err := x.localBuilder(fs.X, "delete")
+				if err != nil {
+					return nil, true, err
+				}
+				bk, k, err := x.expr(c.Args[1])
+				if err != nil {
+					return nil, true, err
+				}
+				return append(bk, fmt.Sprintf("let %s := (GoDom.setChildren %s (GoDom.mapDelete (GoDom.children %s) %s))", n, n, n, k)), true, nil
+			}
 		}
 		// slices.Reverse(xs) on a local slice
 		if fn := x.calleeFunc(c); fn != nil && fn.Pkg() != nil && fn.Pkg().Path() == "slices" && fn.Name() == "Reverse" && len(c.Args) == 1 {
@@ -516,16 +784,36 @@ func (x *xl) domSimple(s ast.Stmt) ([]string, bool, error) {
 				cf = r.f
 			}
 			if cf != nil && cf.Acc != "" {
-				if x.acc == nil {
-					return nil, true, x.errf(c, "call of %s (it has an accumulator) from a function without one", fn.Name())
+				// the threaded variable: the caller's own accumulator, or `&local`
+				target := ""
+				sig := fn.Type().(*types.Signature)
+				if cf.Acc == "$recv" {
+					if sel, ok := c.Fun.(*ast.SelectorExpr); ok {
+						n, _, err := x.localBuilder(sel.X, fn.Name())
+						if err != nil {
+							return nil, true, err
+						}
+						target = n
+					}
 				}
+				for i := 0; i < sig.Params().Len() && i < len(c.Args); i++ {
+					if sig.Params().At(i).Name() == cf.Acc {
+						if n, ok := x.accArg(c.Args[i]); ok {
+							target = n
+						}
+					}
+				}
+				if target == "" {
+					return nil, true, x.errf(c, "call of %s: its accumulator argument is neither the caller's accumulator nor the address of a local variable", fn.Name())
+				}
+				x.inStmtCall = true
 				b, v, err := x.callWhitelisted(c, fn)
+				x.inStmtCall = false
 				if err != nil {
 					return nil, true, err
 				}
-				_ = v
-				// callWhitelisted bound the result to a temporary: rebind the accumulator
-				return append(b, fmt.Sprintf("let %s := %s", x.nameOf(x.acc), v)), true, nil
+				// callWhitelisted bound the result to a temporary: rebind the threaded variable
+				return append(b, fmt.Sprintf("let %s := %s", target, v)), true, nil
 			}
 		}
 		sel, ok := c.Fun.(*ast.SelectorExpr)
@@ -545,6 +833,13 @@ func (x *xl) domSimple(s ast.Stmt) ([]string, bool, error) {
 			tbl = map[string]ent{"Append": {"GoDom.append", []string{"node"}}, "Set": {"GoDom.set", []string{"uint", "node"}}}
 		} else if k == "cont" {
 			tbl = map[string]ent{"AddValue": {"GoDom.addValue", []string{"string", "node"}}, "Remove": {"GoDom.remove", []string{"string"}}}
+		}
+		if k == "cont" && sel.Sel.Name == "ensureChildren" && len(c.Args) == 0 {
+			n, _, err := x.localBuilder(sel.X, sel.Sel.Name)
+			if err != nil {
+				return nil, true, err
+			}
+			return []string{fmt.Sprintf("let %s := (GoDom.ensureChildren %s)", n, n)}, true, nil
 		}
 		e, ok := tbl[sel.Sel.Name]
 		if !ok || len(c.Args) != len(e.args) {
@@ -582,14 +877,118 @@ func (x *xl) domSimple(s ast.Stmt) ([]string, bool, error) {
 		}
 		return append(lines, fmt.Sprintf("let %s := (%s)", n, strings.Join(parts, " "))), true, nil
 	case *ast.AssignStmt:
+		if y.Tok == token.DEFINE && len(y.Lhs) == 1 && len(y.Rhs) == 1 && x.acc != nil {
+			// `m := *ret` where the accumulator points to a MAP: m is the same map (reference type) — one name
+			if st, ok := y.Rhs[0].(*ast.StarExpr); ok {
+				if id, ok := st.X.(*ast.Ident); ok && x.p.info.Uses[id] == x.acc {
+					if _, isMap := x.typeOf(y.Rhs[0]).Underlying().(*types.Map); isMap {
+						lid, ok := y.Lhs[0].(*ast.Ident)
+						if !ok || x.p.info.Defs[lid] == nil {
+							return nil, true, x.errf(s, "alias of the accumulator map")
+						}
+						x.names[x.p.info.Defs[lid]] = x.nameOf(x.acc)
+						x.accAlias[x.p.info.Defs[lid]] = true
+						return nil, true, nil
+					}
+				}
+			}
+		}
 		if y.Tok != token.ASSIGN || len(y.Lhs) != 1 || len(y.Rhs) != 1 {
 			return nil, false, nil
 		}
 		switch l := y.Lhs[0].(type) {
 		case *ast.IndexExpr:
 			// m[k] = v on a local Go map
+			if fs, ok := l.X.(*ast.SelectorExpr); ok && fs.Sel.Name == "items" && domKind(x.typeOf(fs.X)) == "list" {
+				// l.items[i] = v on the receiver being threaded / a local builder: panics when out of range
+				n, _, err := x.localBuilder(fs.X, "element assignment")
+				if err != nil {
+					return nil, true, err
+				}
+				if bt, ok := x.typeOf(l.Index).Underlying().(*types.Basic); !ok || bt.Kind() != types.Uint {
+					return nil, true, x.errf(l, "items index that is not a uint")
+				}
+				bi, i, err := x.expr(l.Index)
+				if err != nil {
+					return nil, true, err
+				}
+				bv, v, err := x.exprTo(y.Rhs[0], x.nodeType(), false)
+				if err != nil {
+					return nil, true, err
+				}
+				return append(append(bi, bv...), fmt.Sprintf("let %s ← GoDom.setItemAt %s %s %s", n, n, i, v)), true, nil
+			}
+			if _, isMap := x.typeOf(l.X).Underlying().(*types.Map); isMap && domKind(x.typeOf(l.X)) == "plainmap" {
+				n, _, err := x.localBuilder(l.X, "map assignment")
+				if err != nil {
+					return nil, true, err
+				}
+				bk, k, err := x.expr(l.Index)
+				if err != nil {
+					return nil, true, err
+				}
+				bv, v, err := x.exprTo(y.Rhs[0], x.typeOf(l.X).Underlying().(*types.Map).Elem(), false)
+				if err != nil {
+					return nil, true, err
+				}
+				return append(append(bk, bv...), fmt.Sprintf("let %s := (GoDom.plainMapSet %s %s %s)", n, n, k, v)), true, nil
+			}
+			if sl, isSl := x.typeOf(l.X).Underlying().(*types.Slice); isSl && domKind(sl.Elem()) == "plain" {
+				// res[i] = v on a slice the function made itself and never copies (no alias can see the write)
+				n, v, err := x.localBuilder(l.X, "element assignment")
+				if err != nil {
+					return nil, true, err
+				}
+				if err := x.unaliasedLocalSlice(l.X, v); err != nil {
+					return nil, true, err
+				}
+				bi, i, err := x.expr(l.Index)
+				if err != nil {
+					return nil, true, err
+				}
+				if !isInty(x.typeOf(l.Index)) {
+					return nil, true, x.errf(l, "index that is not an int")
+				}
+				bv, val, err := x.exprTo(y.Rhs[0], sl.Elem(), false)
+				if err != nil {
+					return nil, true, err
+				}
+				return append(append(bi, bv...), fmt.Sprintf("let %s ← GoDom.plainListSet %s %s %s", n, n, i, val)), true, nil
+			}
+			if _, isMap := x.typeOf(l.X).Underlying().(*types.Map); isMap && domKind(x.typeOf(l.X)) == "leafmap" {
+				// m[k] = leaf on a local map[string]Leaf (or the alias `m := *ret` of the accumulator)
+				n, _, err := x.localBuilder(l.X, "map assignment")
+				if err != nil {
+					return nil, true, err
+				}
+				bk, k, err := x.expr(l.Index)
+				if err != nil {
+					return nil, true, err
+				}
+				bv, v, err := x.exprTo(y.Rhs[0], x.typeOf(l.X).Underlying().(*types.Map).Elem(), false)
+				if err != nil {
+					return nil, true, err
+				}
+				return append(append(bk, bv...), fmt.Sprintf("let %s := (GoDom.leafMapSet %s %s %s)", n, n, k, v)), true, nil
+			}
 			if _, isMap := x.typeOf(l.X).Underlying().(*types.Map); !isMap || domKind(x.typeOf(l.X)) != "cont" {
 				return nil, false, nil
+			}
+			if fs, ok := l.X.(*ast.SelectorExpr); ok && fs.Sel.Name == "children" && domKind(x.typeOf(fs.X)) == "cont" {
+				// c2.children[k] = v on a local builder
+				n, _, err := x.localBuilder(fs.X, "map assignment")
+				if err != nil {
+					return nil, true, err
+				}
+				bk, k, err := x.expr(l.Index)
+				if err != nil {
+					return nil, true, err
+				}
+				bv, v, err := x.exprTo(y.Rhs[0], x.nodeType(), false)
+				if err != nil {
+					return nil, true, err
+				}
+				return append(append(bk, bv...), fmt.Sprintf("let %s := (GoDom.setChildren %s (GoDom.mapSet (GoDom.children %s) %s %s))", n, n, n, k, v)), true, nil
 			}
 			n, _, err := x.localBuilder(l.X, "map assignment")
 			if err != nil {
@@ -654,7 +1053,33 @@ func (x *xl) optionMatch(y *ast.IfStmt, rest []ast.Stmt, k *cont) ([]string, boo
 	var scrut string
 	var vObj, okObj types.Object
 	someFirst := true
-	if len(as.Lhs) == 2 {
+	if ta, isTA := as.Rhs[0].(*ast.TypeAssertExpr); isTA && len(as.Lhs) == 2 && ta.Type != nil {
+		// if l, ok := n.(dom.List); ok {A} else {B}
+		fn := map[string]string{"list": "GoDom.asList?", "cont": "GoDom.asContainer?", "leaf": "GoDom.asLeaf?"}[domKind(x.typeOf(ta.Type))]
+		if bt, ok := x.typeOf(ta.Type).(*types.Basic); ok && bt.Kind() == types.String && domKind(x.typeOf(ta.X)) == "any" {
+			// s, ok := v.(string) on a leaf's value
+			fn = "GoDom.anyString?"
+		} else if fn == "" || domKind(x.typeOf(ta.X)) != "node" {
+			return nil, true, x.errf(y, "comma-ok type assertion from %s to %s", x.typeOf(ta.X), x.typeOf(ta.Type))
+		}
+		cid, ok := y.Cond.(*ast.Ident)
+		okId, ok2 := as.Lhs[1].(*ast.Ident)
+		vId, ok3 := as.Lhs[0].(*ast.Ident)
+		if !ok || !ok2 || !ok3 || info.Uses[cid] == nil || info.Uses[cid] != info.Defs[okId] {
+			return nil, true, x.errf(y, "comma-ok type assertion whose condition is not the ok variable")
+		}
+		if x.nullable(ta.X) {
+			// a nil interface value fails the assertion (ok = false) instead of panicking
+			return nil, true, x.errf(y, "comma-ok type assertion on a possibly-nil value")
+		}
+		b, v, err := x.expr(ta.X)
+		if err != nil {
+			return nil, true, err
+		}
+		lines = append(lines, b...)
+		scrut = fn + " " + v
+		vObj, okObj = info.Defs[vId], info.Defs[okId]
+	} else if len(as.Lhs) == 2 {
 		ix, ok := as.Rhs[0].(*ast.IndexExpr)
 		if !ok {
 			return nil, false, nil
@@ -817,7 +1242,13 @@ func (w *xlWorld) sigLeanTypes(f *xlFunc, sig *types.Signature) (params []string
 		}
 		rts = append(rts, t)
 	}
-	if f.Acc != "" {
+	if f.Acc == "$recv" && sig.Recv() != nil {
+		t, err := w.leanType(sig.Recv().Type())
+		if err != nil {
+			return nil, "", err
+		}
+		rts = []string{t}
+	} else if f.Acc != "" {
 		for i := 0; i < sig.Params().Len(); i++ {
 			if v := sig.Params().At(i); v.Name() == f.Acc {
 				t, _ := w.leanType(v.Type().Underlying().(*types.Pointer).Elem())
@@ -838,14 +1269,26 @@ func (w *xlWorld) registerRecs(fs []xlFunc, ps []*xlPkg, fds []*ast.FuncDecl) er
 			}
 			continue
 		}
+		if f.Dispatch != "" {
+			continue
+		}
 		fn := ps[i].info.Defs[fds[i].Name].(*types.Func)
 		sig := fn.Type().(*types.Signature)
+		xlPlainMode = f.Plain
 		pts, res, err := w.sigLeanTypes(f, sig)
+		xlPlainMode = false
 		if err != nil {
 			return fmt.Errorf("%s.%s: %v", f.Pkg, f.Name, err)
 		}
 		w.recs[fn] = &xlRec{lean: f.Lean + "_rec", param: "rec_" + f.Lean, f: f, sig: sig,
 			typ: "(" + strings.Join(append(pts, "Go.Res "+res), " → ") + ")"}
+	}
+	for i := range fs {
+		if fs[i].Dispatch != "" {
+			if err := w.registerDispatch(&fs[i], ps[i]); err != nil {
+				return fmt.Errorf("%s.%s: %v", fs[i].Pkg, fs[i].Name, err)
+			}
+		}
 	}
 	return nil
 }
@@ -896,6 +1339,13 @@ func (x *xl) callWhitelisted(c *ast.CallExpr, fn *types.Func) ([]string, string,
 	} else {
 		return nil, "", x.errf(c, "call of %s (neither whitelisted nor a supported primitive)", funcKey(fn))
 	}
+	if cf.Curried {
+		return nil, "", x.errf(c, "call of the curried function %s", fn.Name())
+	}
+	if cf.Acc == "$recv" && !x.inStmtCall {
+		return nil, "", x.errf(c, "call of %s (it mutates its receiver) whose result is used: only the statement form rebinds the receiver", fn.Name())
+	}
+	x.inStmtCall = false
 	var bs, args []string
 	// receiver
 	if sel, ok := c.Fun.(*ast.SelectorExpr); ok {
@@ -954,11 +1404,11 @@ func (x *xl) callWhitelisted(c *ast.CallExpr, fn *types.Func) ([]string, string,
 		}
 		a := c.Args[i]
 		if cf.Acc != "" && pv.Name() == cf.Acc {
-			id, ok := a.(*ast.Ident)
-			if !ok || x.acc == nil || info.Uses[id] != x.acc {
-				return nil, "", x.errf(a, "accumulator argument that is not the caller's accumulator")
+			n, ok := x.accArg(a)
+			if !ok {
+				return nil, "", x.errf(a, "accumulator argument that is neither the caller's accumulator nor the address of a local variable")
 			}
-			args = append(args, x.nameOf(x.acc))
+			args = append(args, n)
 			continue
 		}
 		b, v, err := x.exprTo(a, pv.Type(), null[pv.Name()])
@@ -990,4 +1440,328 @@ func (x *xl) flatParam(n ast.Node, key, typ string) (string, error) {
 	x.touched[nm] = true
 	x.flatPs = append(x.flatPs, xlParam{nm, typ})
 	return nm, nil
+}
+
+// accArg: the Lean name threaded through a callee's accumulator parameter: the caller's own accumulator, or
+// `&v` for a local variable v of the function (not a parameter: nobody else can see it)
+func (x *xl) accArg(a ast.Expr) (string, bool) {
+	if id, ok := a.(*ast.Ident); ok && x.acc != nil && x.p.info.Uses[id] == x.acc {
+		return x.nameOf(x.acc), true
+	}
+	if u, ok := a.(*ast.UnaryExpr); ok && u.Op == token.AND {
+		if id, ok := u.X.(*ast.Ident); ok {
+			if v, ok := x.p.info.Uses[id].(*types.Var); ok && !v.IsField() && v.Parent() != v.Pkg().Scope() && !x.paramObjs[v] && !x.optVars[v] {
+				return x.nameOf(v), true
+			}
+		}
+	}
+	return "", false
+}
+
+// domFuncValueCall (DOM mode; the plain mode has funcValueCall in translate_rec.go, a PURE function): a call `fn(args)` of a function-valued parameter / local variable (a visitor, a predicate):
+// the function is a Lean parameter of type `… → Go.Res …`
+func (x *xl) domFuncValueCall(c *ast.CallExpr, id *ast.Ident) ([]string, string, bool, error) {
+	v, ok := x.p.info.Uses[id].(*types.Var)
+	if !ok {
+		return nil, "", false, nil
+	}
+	sig, ok := v.Type().Underlying().(*types.Signature)
+	if !ok {
+		return nil, "", false, nil
+	}
+	if v.IsField() || v.Parent() == v.Pkg().Scope() {
+		return nil, "", true, x.errf(c, "call of the package-level function value %s", id.Name)
+	}
+	if sig.Variadic() || len(c.Args) != sig.Params().Len() {
+		return nil, "", true, x.errf(c, "call of a function value: argument count")
+	}
+	args := []string{x.nameOf(v)}
+	var bs []string
+	for i, a := range c.Args {
+		b, s, err := x.exprTo(a, sig.Params().At(i).Type(), false)
+		if err != nil {
+			return nil, "", true, err
+		}
+		bs, args = append(bs, b...), append(args, s)
+	}
+	bs, t := x.bindTmp(bs, strings.Join(args, " "))
+	return bs, t, true, nil
+}
+
+// domStdlib: standard-library calls with a restricted argument shape
+func (x *xl) domStdlib(c *ast.CallExpr, key string) ([]string, string, bool, error) {
+	switch key {
+	case "strings.Contains", "strings.HasSuffix":
+		if len(c.Args) != 2 {
+			return nil, "", true, x.errf(c, "call of %s", key)
+		}
+		bs, es, err := x.exprs(c.Args)
+		if err != nil {
+			return nil, "", true, err
+		}
+		prim := map[string]string{"strings.Contains": "GoDom.stringsContains", "strings.HasSuffix": "GoDom.hasSuffix"}[key]
+		return bs, "(" + prim + " " + es[0] + " " + es[1] + ")", true, nil
+	case "strings.Split":
+		// strings.Split(s, sep) for a CONSTANT ONE-CHARACTER separator
+		if len(c.Args) != 2 {
+			return nil, "", true, x.errf(c, "call of %s", key)
+		}
+		tv := x.p.info.Types[c.Args[1]]
+		if tv.Value == nil || tv.Value.Kind() != constant.String || len([]rune(constant.StringVal(tv.Value))) != 1 {
+			return nil, "", true, x.errf(c, "strings.Split with a separator that is not a one-character constant")
+		}
+		b, s, err := x.expr(c.Args[0])
+		if err != nil {
+			return nil, "", true, err
+		}
+		return b, "(GoDom.stringsSplit1 " + s + " " + leanChar([]rune(constant.StringVal(tv.Value))[0]) + ")", true, nil
+	}
+	return nil, "", false, nil
+}
+
+// domRegexpCall: `re.FindStringIndex(s)` on a package-level regexp.MustCompile(literal)
+func (x *xl) domRegexpCall(c *ast.CallExpr, f *ast.SelectorExpr) ([]string, string, bool, error) {
+	id, ok := f.X.(*ast.Ident)
+	if !ok || f.Sel.Name != "FindStringIndex" || len(c.Args) != 1 {
+		return nil, "", false, nil
+	}
+	v, ok := x.p.info.Uses[id].(*types.Var)
+	if !ok || v.Pkg() == nil || v.Parent() != v.Pkg().Scope() {
+		return nil, "", false, nil
+	}
+	pat, ok := x.regexpPattern(v)
+	if !ok {
+		return nil, "", true, x.errf(c, "FindStringIndex on %s: not a package-level regexp.MustCompile(literal)", id.Name)
+	}
+	prim, ok := xlRegexpFind[pat]
+	if !ok {
+		return nil, "", true, x.errf(c, "FindStringIndex: regular expression %q has no DomPrelude counterpart", pat)
+	}
+	b, s, err := x.expr(c.Args[0])
+	if err != nil {
+		return nil, "", true, err
+	}
+	return b, "(" + prim + " " + s + ")", true, nil
+}
+
+// domIndex: `m[k]` on a map[string]dom.Node (nil when absent)
+func (x *xl) domIndex(y *ast.IndexExpr) ([]string, string, bool, error) {
+	fn := map[string]string{"cont": "GoDom.mapGet", "contmap": "GoDom.contMapGet"}[domKind(x.typeOf(y.X))]
+	if _, isMap := x.typeOf(y.X).Underlying().(*types.Map); !isMap || fn == "" {
+		return nil, "", false, nil
+	}
+	bm, m, err := x.expr(y.X)
+	if err != nil {
+		return nil, "", true, err
+	}
+	bk, k, err := x.expr(y.Index)
+	if err != nil {
+		return nil, "", true, err
+	}
+	return append(bm, bk...), "(" + fn + " " + m + " " + k + ")", true, nil
+}
+
+// unaliasedLocalSlice: the local slice variable v was created by `make` in this function and every use of it is an
+// element assignment `v[i] = …`, `len(v)`, or `return v` — so no other name can observe an element write
+func (x *xl) unaliasedLocalSlice(at ast.Node, v *types.Var) error {
+	info := x.p.info
+	made := false
+	okUse := map[*ast.Ident]bool{}
+	ast.Inspect(x.fd.Body, func(n ast.Node) bool {
+		switch y := n.(type) {
+		case *ast.AssignStmt:
+			if y.Tok == token.DEFINE && len(y.Lhs) == 1 && len(y.Rhs) == 1 {
+				if id, ok := y.Lhs[0].(*ast.Ident); ok && info.Defs[id] == v {
+					if c, ok := y.Rhs[0].(*ast.CallExpr); ok {
+						if f, ok := c.Fun.(*ast.Ident); ok {
+							if bi, ok := info.Uses[f].(*types.Builtin); ok && bi.Name() == "make" {
+								made = true
+							}
+						}
+					}
+				}
+			}
+			if y.Tok == token.ASSIGN {
+				for _, l := range y.Lhs {
+					if ix, ok := l.(*ast.IndexExpr); ok {
+						if id, ok := ix.X.(*ast.Ident); ok && info.Uses[id] == v {
+							okUse[id] = true
+						}
+					}
+				}
+			}
+		case *ast.ReturnStmt:
+			for _, r := range y.Results {
+				if id, ok := r.(*ast.Ident); ok && info.Uses[id] == v {
+					okUse[id] = true
+				}
+			}
+		case *ast.CallExpr:
+			if f, ok := y.Fun.(*ast.Ident); ok && len(y.Args) == 1 {
+				if bi, ok := info.Uses[f].(*types.Builtin); ok && bi.Name() == "len" {
+					if id, ok := y.Args[0].(*ast.Ident); ok && info.Uses[id] == v {
+						okUse[id] = true
+					}
+				}
+			}
+		}
+		return true
+	})
+	bad := false
+	ast.Inspect(x.fd.Body, func(n ast.Node) bool {
+		if id, ok := n.(*ast.Ident); ok && info.Uses[id] == v && !okUse[id] {
+			bad = true
+		}
+		return true
+	})
+	if !made || bad {
+		return x.errf(at, "element assignment to a slice that is not a local `make` result used only by index assignment, len and return (aliasing)")
+	}
+	return nil
+}
+
+// ---------------------------------------------------------------- aliasing of reference values
+//
+// Builders, Go maps and DOM containers / lists are REFERENCES in Go; the translation gives every variable a VALUE.
+// The two agree as long as no object that is mutated in place (functional update, see localBuilder) is reachable
+// through two names.  noteAliases records every copy `a := b` / `a = b` / `var a = b` between variables of such a
+// kind; checkAliases (end of the function) fails when one side of a recorded copy is a mutation target.
+
+func isRefKind(t types.Type) bool {
+	switch domKind(t) {
+	case "cont", "list", "leafmap", "contmap", "plainmap", "node":
+		return true
+	}
+	return false
+}
+
+func (x *xl) noteAliases(s ast.Stmt) error {
+	info := x.p.info
+	varOf := func(e ast.Expr) types.Object {
+		for {
+			p, ok := e.(*ast.ParenExpr)
+			if !ok {
+				break
+			}
+			e = p.X
+		}
+		id, ok := e.(*ast.Ident)
+		if !ok {
+			return nil
+		}
+		if o := info.Defs[id]; o != nil {
+			return o
+		}
+		if v, ok := info.Uses[id].(*types.Var); ok && !v.IsField() {
+			return v
+		}
+		return nil
+	}
+	pair := func(l, r ast.Expr) error {
+		lo, ro := varOf(l), varOf(r)
+		if lo != nil && x.accAlias[lo] {
+			return x.errf(s, "assignment to %s, the second name of the accumulator map", lo.Name())
+		}
+		if lo == nil || ro == nil || lo == ro || !isRefKind(ro.Type()) {
+			return nil
+		}
+		x.aliasPairs = append(x.aliasPairs, [2]types.Object{lo, ro})
+		return nil
+	}
+	switch y := s.(type) {
+	case *ast.AssignStmt:
+		if len(y.Lhs) == len(y.Rhs) {
+			for i := range y.Lhs {
+				if err := pair(y.Lhs[i], y.Rhs[i]); err != nil {
+					return err
+				}
+			}
+		} else {
+			for _, l := range y.Lhs {
+				if lo := varOf(l); lo != nil && x.accAlias[lo] {
+					return x.errf(s, "assignment to %s, the second name of the accumulator map", lo.Name())
+				}
+			}
+		}
+	case *ast.DeclStmt:
+		if gd, ok := y.Decl.(*ast.GenDecl); ok {
+			for _, sp := range gd.Specs {
+				if vs, ok := sp.(*ast.ValueSpec); ok && len(vs.Values) == len(vs.Names) {
+					for i := range vs.Names {
+						if err := pair(vs.Names[i], vs.Values[i]); err != nil {
+							return err
+						}
+					}
+				}
+			}
+		}
+	}
+	return nil
+}
+
+func (x *xl) checkAliases() error {
+	for _, p := range x.aliasPairs {
+		if x.mutated[p[0]] || x.mutated[p[1]] {
+			return fmt.Errorf("%s: unsupported: %s and %s name the same object and one of them is mutated in place (aliasing)",
+				x.w.fset.Position(p[0].Pos()), p[0].Name(), p[1].Name())
+		}
+	}
+	return nil
+}
+
+// declThenAssign: s is `var v T` (one name, no value, a DOM kind) and the next statement is `v = e` with an e that
+// cannot be nil and does not mention v
+func (x *xl) declThenAssign(s ast.Stmt, rest []ast.Stmt) bool {
+	ds, ok := s.(*ast.DeclStmt)
+	if !ok || len(rest) == 0 {
+		return false
+	}
+	gd, ok := ds.Decl.(*ast.GenDecl)
+	if !ok || gd.Tok != token.VAR || len(gd.Specs) != 1 {
+		return false
+	}
+	vs, ok := gd.Specs[0].(*ast.ValueSpec)
+	if !ok || len(vs.Names) != 1 || len(vs.Values) != 0 {
+		return false
+	}
+	o := x.p.info.Defs[vs.Names[0]]
+	if o == nil || domKind(o.Type()) == "" || domKind(o.Type()) == "any" || domKind(o.Type()) == "plain" {
+		return false
+	}
+	as, ok := rest[0].(*ast.AssignStmt)
+	if !ok || as.Tok != token.ASSIGN || len(as.Lhs) != 1 || len(as.Rhs) != 1 {
+		return false
+	}
+	id, ok := as.Lhs[0].(*ast.Ident)
+	if !ok || x.p.info.Uses[id] != o || x.nullable(as.Rhs[0]) || isNilIdent(x.p.info, as.Rhs[0]) {
+		return false
+	}
+	mentions := false
+	ast.Inspect(as.Rhs[0], func(n ast.Node) bool {
+		if i2, ok := n.(*ast.Ident); ok && x.p.info.Uses[i2] == o {
+			mentions = true
+		}
+		return true
+	})
+	return !mentions
+}
+
+// curriedLit: the function literal of a body that is exactly `return func(…) … { … }`
+func (x *xl) curriedLit(fd *ast.FuncDecl) (*ast.FuncLit, *types.Signature, error) {
+	if len(fd.Body.List) != 1 {
+		return nil, nil, x.errf(fd, "Curried: the body is not a single return of a function literal")
+	}
+	rs, ok := fd.Body.List[0].(*ast.ReturnStmt)
+	if !ok || len(rs.Results) != 1 {
+		return nil, nil, x.errf(fd, "Curried: the body is not a single return of a function literal")
+	}
+	lit, ok := rs.Results[0].(*ast.FuncLit)
+	if !ok {
+		return nil, nil, x.errf(fd, "Curried: the body is not a single return of a function literal")
+	}
+	lsig, ok := x.p.info.Types[lit].Type.(*types.Signature)
+	if !ok || lsig.Variadic() {
+		return nil, nil, x.errf(fd, "Curried: signature of the literal")
+	}
+	return lit, lsig, nil
 }
